@@ -40,7 +40,7 @@ type c07Prop struct {
 
 func genC07(c *Ctx) error {
 	c.ShardSize = 30
-	c.Notes["rule"] = "one token chaincode instance A lives through the whole history; every proposal is run on A, on a fresh instance B created for that proposal over the same committed state, and on A again, with the same transaction id and timestamp; the three (status, message, payload bytes, write-set, event) are compared. Histories of 30-50 proposals: Init with one of two configurations (different robot), committed or simulated and dropped; token operations through executeTasks (emit, transfer, setFee with known / unknown currency, setFeeAddress, setRate, setLimits, buyToken, buyBack - right and wrong senders and amounts), committed or dropped, some in one task list of several tasks; queries (metadata, predictFee, balanceOf, allowedBalanceOf); probes which robot certificate the instance accepts. Non-trivial: >= 3 dropped simulations that would have changed the metadata and >= 5 committed operations."
+	c.Notes["rule"] = "one token chaincode instance A lives through the whole history; every proposal is run on A, on a fresh instance B created for that proposal over the same committed state, and on A again, with the same transaction id and timestamp; the three (status, message, payload bytes, write-set, event) are compared. Histories of 30-50 proposals: Init with one of two configurations (different robot), committed or simulated and dropped; token operations through executeTasks (emit, transfer, setFee with known / unknown currency, setFeeAddress, setRate, setLimits, buyToken, buyBack - right and wrong senders and amounts), committed or dropped, some in one task list of several tasks; queries (metadata, predictFee, balanceOf, allowedBalanceOf; also of an address the access-control service black-lists and clears between proposals); batched submissions whose proposal carries a trace parent in the transient map while each simulating peer's decorators add a different span of their own (the pending record is ledger data); probes which robot certificate the instance accepts. Non-trivial: >= 3 dropped simulations that would have changed the metadata and >= 5 committed operations."
 	n := c.N(60, 1000)
 	for i := 0; i < n; i++ {
 		if err := c07Case(c); err != nil {
@@ -69,6 +69,7 @@ func c07Case(c *Ctx) error {
 		cw.accs[a.N()] = a
 	}
 	users := []*Account{u1, u2, u3}
+	watched := w.NewAccount(fpb.KeyType_ed25519)
 	for _, a := range append(users, w.Issuer, fa) {
 		w.SetBalance("tt", balance.BalanceTypeAllowed, a.AddrString(), "CURA", big.NewInt(int64(1000+rng.Intn(4000))))
 	}
@@ -247,6 +248,37 @@ func c07Case(c *Ctx) error {
 			steps = append(steps, fmt.Sprintf("SQuery %d %d %d", dA, dB, dA2))
 			jsteps = append(jsteps, map[string]interface{}{"multi_event_task": parts, "status": ra.Status})
 			c.Count("multi_event_task")
+		case r < 86:
+			// a batched submission whose proposal carries the client's trace parent; each endorsing peer's
+			// decorators add a span of their own (not part of the proposal). The pending record is ledger data.
+			tp := func() []byte {
+				return []byte(fmt.Sprintf("00-%032x-%016x-01", rng.Uint64()|1, rng.Uint64()|1))
+			}
+			cw.nonce++
+			req := w.SignedArgs("tt", "script", users[rng.Intn(3)], strconv.FormatUint(cw.nonce, 10), "put,kt,v")
+			w.Peer.Transient = map[string][]byte{"traceparent": tp()}
+			decos := []map[string][]byte{{"traceparent": tp()}, {"traceparent": tp()}, nil}
+			if rng.Intn(3) == 0 {
+				decos[rng.Intn(2)] = nil
+			}
+			txID := w.Peer.NextTxID()
+			var rs [3]*TxResult
+			for j := 0; j < 3; j++ {
+				w.Peer.Decorations = decos[j]
+				if j == 1 {
+					ccB, err := newCC()
+					if err != nil {
+						return err
+					}
+					ch.CC = ccB
+				}
+				rs[j], _ = w.Peer.Simulate("tt", txID, w.Client.Creator, false, strArgs("script", req))
+				ch.CC = ccA
+			}
+			w.Peer.Transient, w.Peer.Decorations = nil, nil
+			steps = append(steps, fmt.Sprintf("SQuery %d %d %d", resDigest(rs[0]), resDigest(rs[1]), resDigest(rs[2])))
+			jsteps = append(jsteps, map[string]interface{}{"traced_submission": true, "status": rs[0].Status, "writes": len(rs[0].Writes)})
+			c.Count(fmt.Sprintf("traced_submission_status_%d_writes_%d", rs[0].Status, len(rs[0].Writes)))
 		default:
 			var fn string
 			var args []string
@@ -257,6 +289,15 @@ func c07Case(c *Ctx) error {
 				fn, args = "predictFee", []string{strconv.Itoa(rng.Intn(100000))}
 			case 2:
 				fn, args = "balanceOf", []string{users[rng.Intn(3)].AddrString()}
+				if rng.Intn(2) == 0 {
+					// an address that takes part in nothing else; the access-control service (state of another channel) changes
+					// its mind about it between proposals: every instance must ask again
+					if rng.Intn(3) == 0 {
+						watched.Black = !watched.Black
+						c.Count("acl_blacklist_toggled")
+					}
+					args = []string{watched.AddrString()}
+				}
 			default:
 				fn, args = "allowedBalanceOf", []string{users[rng.Intn(3)].AddrString(), "CURA"}
 			}
